@@ -406,7 +406,7 @@ def _facts_digest(prog):
         if fn.endswith(".json"):
             with open(os.path.join(prog.fact_dir, fn), "rb") as f:
                 h.update(f.read())
-    for fn in ("absint.py", "absval.py", "engine.py", "interp.py", "lin.py", "models.py", "models2.py", "mirlib.py", "rules/iterator.py"):
+    for fn in ("absint.py", "absval.py", "engine.py", "interp.py", "lin.py", "models.py", "models2.py", "mirlib.py", "rules/iterator.py", "canon.py", "anchors.json"):
         with open(os.path.join(os.path.dirname(os.path.dirname(os.path.abspath(__file__))), fn), "rb") as f:
             h.update(f.read())
     return h.hexdigest()[:24]
